@@ -11,6 +11,7 @@ import (
 	"bytes"
 	"errors"
 	"fmt"
+	"hash/fnv"
 	"io"
 	"os"
 	"runtime"
@@ -40,7 +41,7 @@ import (
 // Entries lists every decode entry point the worker can drive.
 var Entries = []string{
 	"Decode", "DecodeTiff", "DecodeJPEG", "DecodePng", "DecodeCR3", "DecodeCR2", "DecodeHeif", "PreviewCR3",
-	"ExifParse", "ScanJPEG", "ScanJPEGDrain", "ScanTiffHeader", "ScanPngHeader", "BMFF", "ParseXmp",
+	"ExifParse", "ScanJPEG", "ScanJPEGDrain", "ScanTiffHeader", "ScanPngHeader", "BMFF", "BMFFRaw", "ParseXmp",
 	"ItScan", "ItScanBuf", "ItReadAt", "ItBuf", "ItHelpers",
 }
 
@@ -484,6 +485,38 @@ func call(q Req, in *Inst) (dig string, errs string) {
 			err = bmr.ReadMetadata()
 		}
 		dig = sb.String() + digest.Of(ir.Exif) + "preview=" + digest.Of(pr.PreviewImage)
+	case "BMFFRaw":
+		// a consumer of its own: every callback reads its reader to the end through a 64 KiB buffer (large requests take
+		// other paths through the buffered readers than the library's own consumers, which ask for a few KiB at a time)
+		var sb strings.Builder
+		bmr := isobmff.NewReader(plain)
+		defer bmr.Close()
+		big := make([]byte, 64<<10)
+		slurp := func(kind string, r io.Reader) error {
+			h := fnv.New64a()
+			total := 0
+			for {
+				n, e := r.Read(big)
+				h.Write(big[:n])
+				total += n
+				if e != nil || n == 0 {
+					fmt.Fprintf(&sb, "%s-callback bytes=%d hash=%016x end=%s\n", kind, total, h.Sum64(), digest.Err(e))
+					return nil
+				}
+			}
+		}
+		bmr.ExifReader = func(r io.Reader, h meta.ExifHeader) error { return slurp("exif "+digest.Of(h), r) }
+		bmr.XMPReader = func(r io.Reader) error { return slurp("xmp", r) }
+		bmr.PreviewImageReader = func(r io.Reader, h meta.PreviewHeader) error { return slurp("preview", r) }
+		err = bmr.ReadFTYP()
+		k := q.K
+		if k <= 0 {
+			k = 3
+		}
+		for i := 0; i < k && err == nil; i++ {
+			err = bmr.ReadMetadata()
+		}
+		dig = sb.String()
 	case "ParseXmp":
 		var x xmp.XMP
 		x, err = xmp.ParseXmp(plain)
